@@ -24,6 +24,7 @@ class Ctx:
         self.exhaustive = True
         self.extra = {}
         self.quick = (tier != "thorough")
+        self.lite = False       # composite properties (C06, C19) run every structure with reduced shapes in the quick tier
 
     def sub(self, name):
         d = os.path.join(self.work, name)
@@ -380,7 +381,11 @@ def ck_e3(ctx, scenarios, max_nb_log=4):
 
 
 def run_ck(ctx):
-    if ctx.quick:
+    if ctx.quick and ctx.lite:
+        ck_e1(ctx, [(2, 2, 2, 2, 2, True)])
+        ck_e2(ctx, [(2, 2, 2, 1, False)], pairs=4000)
+        ck_e3(ctx, 40)
+    elif ctx.quick:
         ck_e1(ctx, [(2, 2, 2, 2, 2, True)])
         ck_e2(ctx, [(2, 2, 2, 2, False)], pairs=4000)
         ck_e3(ctx, 60)
@@ -453,6 +458,35 @@ def run_bl(ctx):
         bl_e2(ctx, [(2, 1), (3, 2), (4, 2), (4, 3), (5, 3), (6, 3), (7, 4), (8, 2)], n_fs=8, pairs=70000)
         setfilter_e3(ctx, "bl", 1500)
         setfilter_e3(ctx, "hs", 300)
+
+
+def run_C19(ctx):
+    """clear() restores a fresh structure, clone() is independent, is_empty(): all nine structures.
+    Every pipeline records, for every executed call, (i) a clone taken before the call answering as before
+    afterwards, (ii) after a clear() a freshly constructed object fed with the same calls (lock-step)."""
+    ctx.lite = True
+    run_bl(ctx)
+    run_ck(ctx)
+    if ctx.quick:
+        qf_e1(ctx, [(2, 1), (2, 2)])
+        qf_e2(ctx, [(2, 1), (2, 2)], pairs=1000)
+        qf_e3(ctx, 30, 8)
+    else:
+        run_C13(ctx)
+    run_cms(ctx)
+    run_hll(ctx)
+    run_td(ctx)
+    run_rs(ctx, False)
+    run_lossy(ctx)
+    run_heap(ctx)
+
+
+def run_C06(ctx):
+    """merge/union equals processing both streams: Bloom, cuckoo, quotient filter (incl. algebra), CMS, HLL."""
+    ctx.lite = True
+    run_C06_filters(ctx)
+    run_cms(ctx)
+    run_hll(ctx)
 
 
 def run_C01(ctx):
@@ -539,7 +573,11 @@ def cms_e3(ctx, scenarios, types):
 
 def run_cms(ctx):
     alltypes = ["cms8", "cms16", "cms32", "cms64", "cmsz"]
-    if ctx.quick:
+    if ctx.quick and ctx.lite:
+        cms_e1(ctx, [(2, 1, 2, 6, [1, 2, 5], 4, False), (2, 3, 2, 6, [1, 2, 5], 4, True)])
+        cms_e2(ctx, [(3, 2, 3)], n_fs=1, pairs=1500, types=["cms8", "cms64"])
+        cms_e3(ctx, 25, ["cms16", "cmsz"])
+    elif ctx.quick:
         cms_e1(ctx, [(1, 1, 2, 6, [1, 2, 5], 4, False), (2, 1, 2, 6, [1, 2, 5], 4, False), (1, 2, 2, 6, [1, 2, 5], 4, False),
                      (3, 2, 3, 6, [1, 2, 5], 3, True), (2, 3, 2, 6, [1, 2, 5], 4, True)])
         cms_e2(ctx, [(3, 2, 3), (2, 3, 3)], n_fs=1, pairs=1500, types=alltypes)
@@ -900,7 +938,11 @@ TD_CONFIGS_T = TD_CONFIGS_Q + [("K0", 2, 1, 3), ("K0", 4, 1, 1), ("K2", 4, 1, 1)
 
 
 def run_td(ctx, rank=False):
-    if ctx.quick:
+    if ctx.quick and ctx.lite:
+        td_e1(ctx, [("any", 2, 1, 1, [0, 1, 2, 3], [0, 1, 2], 5)], [])
+        td_e2(ctx, [0, 3], [0, 16, 64], 4, [("K0", 4, 1, 0), ("K2", 5, 2, 0), ("K3", 10, 1, 3)])
+        td_e3(ctx, 40)
+    elif ctx.quick:
         td_e1(ctx, [("any", 2, 1, 1, [0, 1, 2, 3], [0, 1, 2], 5), ("K0", 2, 1, 1, [0, 1, 2, 3], [0, 1, 2], 5), ("K0", 3, 2, 0, [0, 1, 3], [1, 2], 5)],
               [(3, 2, 3, 8)])
         td_e2(ctx, [0, 3], [0, 16, 64], 4, TD_CONFIGS_Q)
@@ -1001,6 +1043,15 @@ PROPS = {
                     "K0..K3 x delta in {1.1,2,10,100,1000} x backlog in {0,1,10,1000} x n to 5*10^4 x {sorted, reverse, ~normal, heavy tail, 3-valued, saw-tooth} x read cadence; "
                     "bound 3 W + 2/n with W over-approximated in integers; every digest counts as non-trivial",
             "assumptions": ["only the loosest multiple (3 W) is checked; the 'one W for smooth densities' clause and n > 5*10^4 are not covered", "K1..K3 layouts are not predicted (asin/ln/exp)"]},
+    "C06": {"run": run_C06, "level": "model_checking",
+            "rule": "E1: two-instance models with union/merge for every structure (Bloom: state = OR of positions of everything inserted; CMS: every cell = sum of true weights; HLL: registers = max-rank map of the union of hash sets; "
+                    "quotient filter: union result rules + commutativity/associativity/idempotence over all reachable triples; cuckoo: bag sum for all victim scripts); E2: union/merge executed on pairs of materialised states "
+                    "(all pairs where the graph is small) and the result compared by TLC with the pure operator of the spec and with a real reference that received both streams; E3: random scenarios with three instances",
+            "assumptions": CK_ASSUME},
+    "C19": {"run": run_C19, "level": "model_checking",
+            "rule": "all nine structures: every clear transition of the bounded models leaves an object from which all outgoing transitions are re-executed next to a freshly constructed object (lock-step, identical scripted RNG), "
+                    "every executed call is preceded by a clone whose answers are re-read afterwards; TDigest on K0..K3 with pre-clear histories of 500-3500 inserts in E3",
+            "assumptions": ["TLC and the TLA+ P-specs judge every executed call", "observational equality is equality of all public read answers over the key universe of the run"]},
     "C12": {"run": lambda ctx: (run_ck(ctx), run_C13(ctx)), "level": "model_checking", "rule": CK_RULE + "; quotient filter as C13", "assumptions": CK_ASSUME},
     "C13": {"run": run_C13, "level": "model_checking",
             "rule": "E1: every reachable state of the quotient-filter M-spec for the listed (q,r); E2: every emitted transition executed "
